@@ -329,6 +329,7 @@ func diffTrees(a, b map[string]string) string {
 
 func main() {
 	c := core.New("C09")
+	c.ReplayFallback()
 	swagger = c.BuildSwagger()
 	// several workers, each with its own fixed directory (generated files embed relative paths)
 	nw := 8
